@@ -2977,7 +2977,7 @@ class Mailbox:
         - `name`: The name of the mailbox to delete
         - `server`: The user server object
         """
-        if name == "inbox":
+        if name.lower() == "inbox":
             raise InvalidMailbox("You are not allowed to delete the inbox")
 
         mbox = await server.get_mailbox(name)
@@ -3104,6 +3104,14 @@ class Mailbox:
         - `server`: the user server object
         """
         mbox = await server.get_mailbox(old_name)
+
+        # A mailbox can not be moved underneath itself.
+        #
+        if new_name.startswith(f"{mbox.name}/"):
+            raise InvalidMailbox(
+                f"Can not rename '{old_name}' to its own inferior '{new_name}'"
+            )
+
         # The mailbox we are moving to must not exist.
         #
         try:
@@ -3146,6 +3154,11 @@ class Mailbox:
             mbox_match = os.path.normpath(mbox_match)
 
         mbox_match = ref_mbox_name + mbox_match
+
+        # INBOX is case-insensitive (rfc3501 §5.1). It is stored as `inbox`.
+        #
+        if mbox_match.lower() == "inbox":
+            mbox_match = "inbox"
 
         # Escape regex metacharacters, then convert IMAP wildcards.
         #
